@@ -3,6 +3,9 @@
      X <id> <dflags> <framehex> <calls>        streaming decoder; calls = offered:cap;...
          dflags: "-" or comma list of ml | mw=<maxWindowSize> | bm=<maxBlockSize> | so=<stable out buffer size> | nock
          -> <id> OK <outhex> consumed:produced:ret:zstage:dstage:expected:lhSize:inPos:outStart:outEnd:hostage:inBuffSize:outBuffSize;...
+     XD <id> <dflags> <dicthex> <framehex> <calls>   the same with a dictionary attached for indefinite use (StreamInstDict.v)
+     SD <id> <dflags> <dicthex> <framehex>     specification decoder started from the dictionary
+     DU <id> <ops>                             dictionary-selection state machine (see cmd_du)
      S <id> <dflags> <framehex>                specification decoder   -> <id> OK <hex> | <id> ERR <name>
      O <id> <dflags> <framehex> <cap>          one-shot model          -> idem
      B <id> <dflags> <framehex>                buffer-less protocol (begin + continue fed exactly the expected size)
@@ -84,11 +87,11 @@ let parse_dflags s =
 
 let b2i b = if b then 1 else 0
 
-let cmd_x id dfl fhex calls =
+let cmd_x_gen znew zstep id dfl fhex calls =
   let (p, so) = parse_dflags dfl in
   let f = arr_of_hex fhex in
   let out = Buffer.create 4096 and rec_ = Buffer.create 4096 in
-  let z = ref (rz_new p) and ipos = ref 0 and opos = ref 0 and stop = ref false in
+  let z = ref (znew p) and ipos = ref 0 and opos = ref 0 and stop = ref false in
   List.iter (fun c ->
     if not !stop then begin
       match String.split_on_char ':' c with
@@ -96,7 +99,7 @@ let cmd_x id dfl fhex calls =
         let offered = int_of_string a and cap = int_of_string b in
         let inp = slice f !ipos offered in
         let (osize, op) = if so >= 0 then (so, !opos) else (cap, 0) in
-        let o = rdstep p !z inp (n_of_int osize) (n_of_int op) in
+        let o = zstep p !z inp (n_of_int osize) (n_of_int op) in
         let zz = o.o_z in
         let ret = match o.o_ret with MOk h -> string_of_n h | MErr e -> stop := true; "E" ^ derr_name e in
         add_hex out o.o_out;
@@ -108,6 +111,36 @@ let cmd_x id dfl fhex calls =
       | _ -> ()
     end) (split ';' calls);
   Printf.printf "%s OK %s %s\n" id (hex_of_buf out) (if Buffer.length rec_ = 0 then "-" else Buffer.contents rec_)
+
+let cmd_x = cmd_x_gen rz_new rdstep
+(* the same with a dictionary attached for indefinite use (every frame starts from it) *)
+let with_dict id dhex k =
+  match dict_of_bytes (slice (arr_of_hex dhex) 0 max_int) with
+  | None -> Printf.printf "%s ERR dictionary_corrupted\n" id
+  | Some d -> k d
+let cmd_xd id dfl dhex fhex calls = with_dict id dhex (fun d -> cmd_x_gen (rz_new_d d) (rdstep_d d) id dfl fhex calls)
+
+(* DU <id> <ops> : dictionary-selection state machine (DictUseModel.v), D = dictionary index ; ops comma separated:
+   L<k> R<k> P<k> (k = 0 : none) | S (session reset) | A (parameter reset) | N (new context) | F | K | O<n> | q (print state)
+   -> <id> OK <dict index>,<dictUses as in C: 0 dont_use, 1 use_once, -1 use_indefinitely>;...  one entry per q *)
+let cmd_du id ops =
+  let s = ref dd_new and b = Buffer.create 256 in
+  let optd k = if k = 0 then None else Some k in
+  let arg t = int_of_string (String.sub t 1 (String.length t - 1)) in
+  let rec nat_of_int i = if i <= 0 then O else S (nat_of_int (i - 1)) in
+  List.iter (fun t ->
+    if t = "q" then
+      Buffer.add_string b (Printf.sprintf "%d,%d;" (match (!s).dd_dict with None -> 0 | Some k -> k)
+                             (match (!s).dd_uses with DontUse -> 0 | UseOnce -> 1 | UseIndef -> -1))
+    else if t = "N" then s := dd_new
+    else begin
+      let op = (match t.[0] with
+        | 'L' -> OpLoad (optd (arg t)) | 'R' -> OpRefDDict (optd (arg t)) | 'P' -> OpRefPrefix (optd (arg t))
+        | 'S' -> OpResetSession | 'A' -> OpResetParams | 'F' -> OpFrame | 'K' -> OpSkippable
+        | 'O' -> OpOneShot (nat_of_int (arg t)) | _ -> failwith "bad DU op") in
+      s := fst (dd_step !s op)
+    end) (split ',' ops);
+  Printf.printf "%s OK %s\n" id (if Buffer.length b = 0 then "-" else Buffer.contents b)
 
 let print_res id = function
   | MOk l -> let b = Buffer.create 4096 in add_hex b l; Printf.printf "%s OK %s\n" id (hex_of_buf b)
@@ -244,6 +277,10 @@ let () =
         if Array.length t >= 1 then begin
           match t.(0) with
           | "X" -> cmd_x t.(1) t.(2) t.(3) t.(4)
+          | "XD" -> cmd_xd t.(1) t.(2) t.(3) t.(4) t.(5)
+          | "SD" -> let (p, _) = parse_dflags t.(2) in
+                    with_dict t.(1) t.(3) (fun d -> print_res t.(1) (rspec_decode_d d p (slice (arr_of_hex t.(4)) 0 max_int)))
+          | "DU" -> cmd_du t.(1) t.(2)
           | "S" -> let (p, _) = parse_dflags t.(2) in print_res t.(1) (rspec_decode p (slice (arr_of_hex t.(3)) 0 max_int))
           | "O" -> let (p, _) = parse_dflags t.(2) in print_res t.(1) (roneshot p (slice (arr_of_hex t.(3)) 0 max_int) (n_of_string t.(4)))
           | "B" -> cmd_b t.(1) t.(2) t.(3)
